@@ -46,7 +46,7 @@ PureOps == {"Sum", "Prod", "CumSum", "CumProd", "Abs", "Sqr", "Min", "Max", "Whi
             "Which", "WhichAll", "Contains", "Rep", "Seq", "AddS", "SAdd", "SubS", "SSub", "MulS", "SMul",
             "DivS", "SDiv", "Add", "Sub", "Mul", "Div", "SumProd", "Scalar", "Scalar3", "Kron", "Union",
             "Inter", "SameC", "Extract", "UnionAll", "InterAll", "Concat", "Mean", "Center", "CovB", "VarB",
-            "Fdr", "CovO", "MeanW", "CovW", "VarW", "MeanX", "CenterX", "CovX", "VarX", "SdX", "CorX"}
+            "Fdr", "CovO", "MeanW", "CovW", "VarW", "MeanX", "CenterX", "CovX", "VarX", "SdX", "CorX", "AddSQ", "SAddQ", "SubSQ", "SSubQ", "MulSQ", "SMulQ", "DivSQ", "SDivQ"}
 
 \* Independence reduction: a call with const arguments reads only its own
 \* arguments, so it is explored from the states in which the registers it does
@@ -66,7 +66,7 @@ Do(op, xn, yn, zn, k) ==
   LET x == Arg(xn)  y == Arg(yn)  z == Arg(zn)
       a == A(ty, op, x, y, z, k) IN
   /\ Quiet(op, xn, yn, zn, k)
-  /\ Pre(op, x, y, z, k)
+  /\ Pre(op, x, y, z, k) /\ PreT(ty, op, x, k)
   /\ Assert(J(ty, op, x, y, z, k, a.o, a.c, a.r, a.X, a.Y, a.Z),
             <<"transcription rejected by the definition", ty, op, x, y, z, k, a>>)
   /\ Step(op, xn, yn, zn, k, a)
@@ -116,6 +116,21 @@ AAddEqS       == /\ S("AddEqS")
 ASubEqS       == /\ S("SubEqS")
 AMulEqS       == /\ S("MulEqS")
 ADivEqS       == /\ S("DivEqS")
+\* mixed element / scalar types: the scalar is m/4
+QVals == {-6, -2, 1, 2, 4, 10}
+SQ(op) == \E p \in Rot3, m \in QVals : Do(op, p[1], p[2], p[3], <<m>>)
+AAddSQ        == /\ SQ("AddSQ")
+ASAddQ        == /\ SQ("SAddQ")
+ASubSQ        == /\ SQ("SubSQ")
+ASSubQ        == /\ SQ("SSubQ")
+AMulSQ        == /\ SQ("MulSQ")
+ASMulQ        == /\ SQ("SMulQ")
+ADivSQ        == /\ SQ("DivSQ")
+ASDivQ        == /\ SQ("SDivQ")
+AAddEqSQ      == /\ SQ("AddEqSQ")
+ASubEqSQ      == /\ SQ("SubEqSQ")
+AMulEqSQ      == /\ SQ("MulEqSQ")
+ADivEqSQ      == /\ SQ("DivEqSQ")
 AAddEqE       == /\ \E p \in Rot3, i \in 0..(MaxLen - 1) : Do("AddEqE", p[1], p[2], p[3], <<i>>)
 ASubEqE       == /\ \E p \in Rot3, i \in 0..(MaxLen - 1) : Do("SubEqE", p[1], p[2], p[3], <<i>>)
 AMulEqE       == /\ \E p \in Rot3, i \in 0..(MaxLen - 1) : Do("MulEqE", p[1], p[2], p[3], <<i>>)
@@ -169,7 +184,8 @@ Next ==
   \/ AWhichMin \/ AWhichMax \/ AWhichMinAll \/ AWhichMaxAll \/ ARange \/ AOrder \/ AUnique
   \/ AIsUnique \/ ACountValues \/ AMedian
   \/ AWhich \/ AWhichAll \/ AContains \/ AFill \/ AAndEq \/ AAddS \/ ASAdd \/ ASubS \/ ASSub
-  \/ AMulS \/ ASMul \/ ADivS \/ ASDiv \/ AAddEqS \/ ASubEqS \/ AMulEqS \/ ADivEqS \/ AAddEqE \/ ASubEqE \/ AMulEqE \/ ADivEqE \/ ARep \/ ASeq
+  \/ AMulS \/ ASMul \/ ADivS \/ ASDiv \/ AAddEqS \/ ASubEqS \/ AMulEqS \/ ADivEqS \/ AAddSQ \/ ASAddQ \/ ASubSQ \/ ASSubQ \/ AMulSQ \/ ASMulQ \/ ADivSQ \/ ASDivQ
+  \/ AAddEqSQ \/ ASubEqSQ \/ AMulEqSQ \/ ADivEqSQ \/ AAddEqE \/ ASubEqE \/ AMulEqE \/ ADivEqE \/ ARep \/ ASeq
   \/ AAdd \/ ASub \/ AMul \/ ADiv \/ ASumProd \/ AScalar \/ AScalar3 \/ AKron \/ AUnion \/ AInter
   \/ ASameC \/ ASame \/ AContainsAll \/ AExtract \/ AAddEq \/ ASubEq \/ AMulEq \/ ADivEq
   \/ AAppend \/ APrepend \/ AExtend \/ ADiff \/ AUnionAll \/ AInterAll \/ AConcat
